@@ -26,8 +26,15 @@ BY_FILE = [          # touched file -> the checks that read it most directly (ow
 ]
 
 
+WIDE = os.environ.get('SEED_WIDE')          # second pass for seeds the first pass missed: every property not yet run
+
+
 def props_for(name):
     own = name.split('-')[0]
+    if WIDE:
+        done = json.load(open(os.path.join(out, name + '.json')))
+        files = done.get('files', [])
+        return [f'C{k:02d}' for k in range(1, 21) if f'C{k:02d}' not in done], files
     patch = open(f'/verif/seeded/{name}/patch.diff').read()
     files = re.findall(r'^\+\+\+ b/(\S+)', patch, re.M)
     ps = [own]
@@ -63,6 +70,10 @@ def run(name):
     finally:
         subprocess.run(['git', '-C', '/repo', 'worktree', 'remove', '--force', wt])
         shutil.rmtree(d, ignore_errors=True)
+    if WIDE:
+        old = json.load(open(os.path.join(out, name + '.json')))
+        old.update(res)
+        res = old
     res['_repo_head'] = subprocess.run(['git', '-C', '/repo', 'rev-parse', '--short', 'HEAD'], capture_output=True, text=True).stdout.strip()
     res['_verif_head'] = subprocess.run(['git', '-C', vdir, 'rev-parse', '--short', 'HEAD'], capture_output=True, text=True).stdout.strip()
     json.dump(res, open(os.path.join(out, name + '.json'), 'w'), indent=1)
@@ -72,6 +83,15 @@ def run(name):
 names = sorted(n for n in os.listdir('/verif/seeded') if os.path.exists(f'/verif/seeded/{n}/patch.diff'))
 if prefixes:
     names = [n for n in names if any(n.startswith(p) for p in prefixes)]
-names = [n for n in names if not os.path.exists(os.path.join(out, n + '.json'))]
+if WIDE:
+    def _missed(n):
+        f = os.path.join(out, n + '.json')
+        if not os.path.exists(f):
+            return False
+        d = json.load(open(f))
+        return '_apply' not in d and not any(isinstance(v, dict) and v.get('exit') == 1 for v in d.values())
+    names = [n for n in names if _missed(n)]
+else:
+    names = [n for n in names if not os.path.exists(os.path.join(out, n + '.json'))]
 with ThreadPoolExecutor(par) as ex:
     list(ex.map(run, names))
